@@ -43,7 +43,7 @@ let u_canon c =
      | None -> Ok_
      | Some i -> let i = int_of_nat i in
        let k = st.(i) in
-       Diff (Printf.sprintf "token %d (%s) nl=%d ind=%d cont=%d sp=%d" i k.ty k.nl k.ind k.cont k.sp))
+       Viol ("plan_not_canonical", Printf.sprintf "token %d (%s) nl=%d ind=%d cont=%d sp=%d: a line start carries spaces / a continuation carries indentation / more than one blank line" i k.ty k.nl k.ind k.cont k.sp))
   | None -> Skip
 
 (* C08(d): no output line ends in blanks. A line ends where the next decided token breaks; what
